@@ -50,6 +50,9 @@ def op_outcome(op):
             m = g.parse(op['text'])
             return ('ok', 'custom-grammar', g._hashed[:12], tree_sig(m)[0])
         g = parso.load_grammar(version=op['v'])
+        text = op.get('text')
+        if op.get('as_bytes') and text is not None:
+            text = text.encode('utf-8', 'surrogatepass')
         if k == 'parse':
             kw = {}
             if not op.get('recovery', True):
@@ -57,15 +60,15 @@ def op_outcome(op):
             if op.get('start'):
                 kw['start_symbol'] = op['start']
                 kw['error_recovery'] = False
-            m = g.parse(op['text'], **kw)
+            m = g.parse(text, **kw)
             sig, problems = tree_sig(m)
-            return ('ok', sig, m.get_code() == op['text'] or bool(op.get('start')), problems[:2])
+            return ('ok', sig, m.get_code(), problems[:2])
         if k == 'errors':
-            m = g.parse(op['text'])
+            m = g.parse(text)
             issues = list(g.iter_errors(m))
             return ('ok', [(i.code, i.message, i.start_pos, i.end_pos) for i in issues], tree_sig(m)[0])
         if k == 'pep8':
-            m = g.parse(op['text'])
+            m = g.parse(text)
             issues = g._get_normalizer_issues(m)
             return ('ok', [(i.code, i.message, i.start_pos, i.end_pos) for i in issues], tree_sig(m)[0])
         if k == 'tokenize':
@@ -413,6 +416,8 @@ def make_plan(seed, tier='quick'):
             op = {'k': k, 'v': v}
             if k != 'load':
                 op['text'] = _text(rng)
+                if k in ('parse', 'errors', 'pep8') and rng.random() < 0.15:
+                    op['as_bytes'] = True
             if k == 'parse':
                 r = rng.random()
                 if r < 0.2:
